@@ -107,3 +107,57 @@ theorem lastHeaderIndex_of_height (B hh : Nat) (hh32 : hh + 1 < 2 ^ 32) :
 example : GoFuncs.lastHeaderIndex 4000 851 = 4850 := by decide
 
 end NeoModel.GoFuncsTie
+
+namespace NeoModel.GoFuncsTie
+open NeoModel NeoModel.Generated
+
+/-- **Blockchain.persist, refused flush** (translated from blockchain.go): when `bc.dao.Persist()` fails, persist returns
+that error with NO effect - persistedHeight is not swapped (the `atomic.SwapUint32` leaf is never reached: the result
+does not depend on it), no metric, and no `persistCond.Signal`: a storeBlock waiting at the back-pressure keeps
+waiting for the next flush that succeeds. This is the model's refused flush (`MOp.fail`: nothing but the write cache
+is touched). -/
+theorem bcPersist_refused (now n h : Int) (he : Bool) (sw hh : Int) (hhe : Bool) (since iv kpp : Int) :
+    GoFuncs.bcPersist now n true h he sw hh hhe since iv kpp = (0, "bc_dao_Persist_1_err", []) := by
+  simp [GoFuncs.bcPersist]
+
+/-- **Blockchain.persist, successful flush**: whenever persist returns without error - whether or not anything was
+written - `bc.persistCond.Signal` is its last effect: the AddBlock that waits inside storeBlock (the model's
+`blockWait`) is released by exactly the flush it waited for. -/
+theorem bcPersist_ok_signals (now n h : Int) (he : Bool) (sw hh : Int) (hhe : Bool) (since iv kpp : Int)
+    (hok : (GoFuncs.bcPersist now n false h he sw hh hhe since iv kpp).2.1 = "ok") :
+    (GoFuncs.bcPersist now n false h he sw hh hhe since iv kpp).2.2.getLast? = some "bc.persistCond.Signal" := by
+  unfold GoFuncs.bcPersist at hok ⊢
+  simp only [] at hok ⊢
+  split <;> (try split) <;> (try split) <;> (try split) <;> (try split) <;> simp_all
+
+example : (GoFuncs.bcPersist 0 500 false 7 false 5 7 false 3 1000 0).2.2.getLast? = some "bc.persistCond.Signal" := by decide
+
+
+/-- **statesync.Module.Init resumes the recorded sync point** (translated from statesync/module.go): on a node whose
+module is not initialised yet (stage `none` = 2), with the chain at least two intervals high, the node itself still at
+or below the sync point before the latest one, and a recorded sync point `pOld` that is not older than one interval:
+the module keeps `pOld` (it becomes `s.syncPoint` and is written back), moves to stage `initialized` (4) and hands over
+to defineSyncStage - the situation the model's `restartSync` starts from (a recorded sync point, the node below it). -/
+theorem statesyncInit_resumes_recorded_point (cur si bh th pOld : Nat) (sp : Int) (ds cs : Bool)
+    (hsi : 0 < si) (hcur : cur < 2 ^ 32) (h2 : 2 * si ≤ cur / si * si) (hbh : bh + 2 * si ≤ cur / si * si)
+    (hold : cur / si * si ≤ pOld + si) :
+    GoFuncs.statesyncModuleInit (cur : Int) 2 sp (si : Int) (bh : Int) (th : Int) (pOld : Int) false ds cs =
+      ((if ds = true then "s_defineSyncStage_s1_err" else "ok"), 4, (pOld : Int), ["s.dao.PutStateSyncPoint"]) := by
+  have e1 : ((cur : Int) / (si : Int)) * (si : Int) = ((cur / si * si : Nat) : Int) := by
+    rw [← Int.natCast_ediv]; push_cast; rfl
+  have hle : cur / si * si ≤ cur := Nat.div_mul_le_self _ _
+  unfold GoFuncs.statesyncModuleInit
+  simp only []
+  rw [e1]
+  generalize cur / si * si = p at *
+  have c1 : ¬ (((p : Int) % 4294967296) < ((2 * (si : Int)) % 4294967296)) := by omega
+  have c2 : ¬ ((bh : Int) > ((((p : Int) % 4294967296) - ((2 * (si : Int)) % 4294967296)) % 4294967296)) := by omega
+  have c3 : (pOld : Int) ≥ ((((p : Int) % 4294967296) - (si : Int)) % 4294967296) := by omega
+  simp [c1]
+  have d2 : ¬ (((p : Int) - 2 * (si : Int)) % 4294967296 < (bh : Int)) := by omega
+  have d3 : ((p : Int) - (si : Int)) % 4294967296 ≤ (pOld : Int) := by omega
+  rw [if_neg d2, if_pos d3]
+
+example : GoFuncs.statesyncModuleInit 33 2 0 4 0 0 28 false false false = ("ok", 4, 28, ["s.dao.PutStateSyncPoint"]) := by decide
+
+end NeoModel.GoFuncsTie
